@@ -141,7 +141,11 @@ class SocketStreamTransport(base_selector.SelectorStreamTransport):
         if not _utils.supports_socket_sendmsg(socket):
             return super().send_all_from_iterable(iterable_of_data, timeout)
 
-        buffers: deque[memoryview] = deque(map(memoryview, iterable_of_data))  # type: ignore[arg-type]
+        # Drop empty views: sendmsg() reports 0 byte sent for them, adjust_leftover_buffer() would keep them
+        # and the loop below would never end.
+        buffers: deque[memoryview] = deque(
+            view for view in map(memoryview, iterable_of_data) if view.nbytes  # type: ignore[arg-type]
+        )
         del iterable_of_data
 
         def try_sendmsg() -> int:
